@@ -19,6 +19,7 @@ From XSG.Model Require Import Strings Chars Convert Necessity Element Render Rus
 From XSG.Generated Require Import RenderRs.
 From XSG.Proofs Require Import RenderProofs NamesRsProofs ConvertProofs WfProofs ReparseProofs RenderRsProofs.
 From Coq Require Import String List.
+From Coq Require Permutation Sorted.
 Import ListNotations.
 Open Scope list_scope.
 Open Scope nat_scope.
@@ -81,9 +82,27 @@ Example C09_source_example :
   /\ to_serde_struct quick_xml_de r <> to_serde_struct srt r.
 Proof. exact source_example. Qed.
 
+(* the reading of `sort_unstable_by_key` (Model/RustRender.v: insertion sort by the key) is the only
+   possible one when the keys are pairwise distinct: ANY sorted permutation of the list - whatever
+   algorithm std uses - is that list.  Child names and attribute names are distinct under Uniq, and
+   the parser gives the children of one element distinct positions. *)
+Theorem C09_source_sort_by_name_any :
+  forall (A : Type) (key : A -> str) (l l' : list A),
+    NoDup (map key l) -> Permutation.Permutation l l' ->
+    Sorted.Sorted (fun a b => str_leb (key a) (key b) = true) l' -> l' = sort_by_key_str key l.
+Proof. exact @sort_by_key_str_any. Qed.
+
+Theorem C09_source_sort_by_position_any :
+  forall (A : Type) (key : A -> option nat) (l l' : list A),
+    NoDup (map key l) -> Permutation.Permutation l l' ->
+    Sorted.Sorted (fun a b => pos_leb (key a) (key b) = true) l' -> l' = sort_by_key_pos key l.
+Proof. exact @sort_by_key_pos_any. Qed.
+
 Print Assumptions C09_source_body.
 Print Assumptions C09_source_inner.
 Print Assumptions C09_source_to_serde_struct.
 Print Assumptions C09_source_reparse.
 Print Assumptions C09_source_out_of_fuel.
 Print Assumptions C09_source_example.
+Print Assumptions C09_source_sort_by_name_any.
+Print Assumptions C09_source_sort_by_position_any.
